@@ -139,13 +139,24 @@ func (m *AppPlacementManager) PlaceApplication(app *objects.Application) error {
 		if queueName == "" {
 			continue
 		}
+		// The recovery queue, and anything below it, is reserved: queue names are not case-sensitive.
 		// We have the recovery queue bail out: only if we are doing forced placement
-		// Recovery rule is last in the list. Recovery queue cannot be returned by other rules.
 		// We do not want to trigger any checks for this queue.
-		if queueName == common.RecoveryQueueFull && app.IsCreateForced() {
-			log.Log(log.SchedApplication).Info("Placing application in recovery queue",
+		// Any other rule result inside the recovery queue hierarchy is ignored: only a forced application
+		// can be placed in the recovery queue and nothing is ever placed, or created, below it.
+		if isRecoveryPath(queueName) {
+			if common.IsRecoveryQueue(queueName) && app.IsCreateForced() {
+				queueName = common.RecoveryQueueFull
+				log.Log(log.SchedApplication).Info("Placing application in recovery queue",
+					zap.String("application", app.ApplicationID))
+				break
+			}
+			log.Log(log.SchedApplication).Debug("Rule returned a queue in the reserved recovery queue hierarchy",
+				zap.String("queueName", queueName),
+				zap.String("ruleName", checkRule.getName()),
 				zap.String("application", app.ApplicationID))
-			break
+			queueName = ""
+			continue
 		}
 		// queueName returned make sure ACL allows access and set the queueName in the app
 		queue := m.queueFn(queueName)
@@ -220,6 +231,12 @@ func (m *AppPlacementManager) PlaceApplication(app *objects.Application) error {
 // If the rule set is correct and can be used the new set is returned.
 // If any error is encountered a nil array is returned and the error set.
 // If the silence flag is set to true, the function will not log.
+// isRecoveryPath returns true if the name is the recovery queue or a queue below the recovery queue.
+func isRecoveryPath(queueName string) bool {
+	name := strings.ToLower(queueName)
+	return name == common.RecoveryQueueFull || strings.HasPrefix(name, common.RecoveryQueueFull+configs.DOT)
+}
+
 func buildRules(rules []configs.PlacementRule, silence bool) ([]rule, error) {
 	// empty list should result in a single "provided" rule
 	if len(rules) == 0 {
